@@ -474,6 +474,44 @@ def run_bystanders(ctx, res, thorough, stats):
                     env.close()
 
 
+def concurrent_identity(ctx, res, stats):
+    """Distinct keys never overwrite or shadow each other -- also when two clients work on them at the same time.  Client 0 removes
+    key K1 while client 1 removes K1 and stores a DIFFERENT key K2 (which may get K1's old row slot); every placement of client 1
+    inside client 0's call is tried and each run must be explainable by the calls executed one at a time (linearizability search
+    of C05 with its reference dictionary): in particular K2's entry must survive client 0's removal of K1."""
+    import shutil
+    import concdrv
+    from props import c05
+    pairs = [('old', 'new'), ('k', 'K'), (1, 2), (2 ** 63 - 1, 2 ** 63), ('a', 'b' * 3), ('1', 1)]      # (keys the snapshot can carry through JSON)
+    runs = 0
+    seen = set()
+    for k1, k2 in pairs:
+        for remover in ('delete', 'delitem', 'pop'):
+            for v2 in (5, 'F' + '-' * 40):
+                setup = [{'op': 'set', 'key': 'anchor', 'value': 0}, {'op': 'set', 'key': k1, 'value': 'v1'}]
+                programs = [[{'op': remover, 'key': k1, 'retry': True} if remover != 'delitem' else {'op': 'delitem', 'key': k1}, {'op': 'get', 'key': k2}],
+                            [{'op': 'delete', 'key': k1, 'retry': True}, {'op': 'set', 'key': k2, 'value': v2, 'retry': True}, {'op': 'get', 'key': k2}]]
+                seqs = concdrv.solo_events(ctx, programs, settings=c05.SETTINGS, setup=setup)
+                for i in range(0, len(seqs[0]) + 1):
+                    r = concdrv.run_program(ctx, programs, [0] * i + [1] * 300 + [0] * 300, mode='own', settings=c05.SETTINGS, setup=setup,
+                                            max_steps=4000, sleep_advances=False)
+                    viol = c05.check_run(r, programs, setup, 'cache', None)
+                    shutil.rmtree(r['dir'], ignore_errors=True)
+                    runs += 1
+                    res.count(['conc-identity', repr(k1), repr(k2), remover, repr(v2)[:8], i], nontrivial=True)
+                    for sig, desc in viol[:1]:
+                        if sig in c05.EXPECTED_SIGS:
+                            continue
+                        sig = 'conc_' + sig
+                        if sig not in seen:
+                            seen.add(sig)
+                            res.violations.append(fw.Violation(sig, 'two clients on distinct keys %r / %r: %s' % (k1, k2, desc),
+                                                               {'check': 'conc_identity', 'programs': programs, 'setup': setup, 'schedule': r['schedule_used']}))
+                if seen:
+                    break
+    stats['conc_identity_runs'] = runs
+
+
 def witnesses(res):
     import tempfile, shutil
     d = tempfile.mkdtemp(prefix='c02wit-')
@@ -525,8 +563,9 @@ def run(ctx, big=False):
     import time as _t
     t0 = _t.time()
     run_bystanders(ctx, res, not ctx.quick, stats)
+    concurrent_identity(ctx, res, stats)
     res.extra.update({'pairs': stats['pairs'], 'pairs_expected_same': stats['same'], 'exhaustive': thorough,
-                      'bystander_scenarios': stats['bystander_scenarios'], 'bystander_s': round(_t.time() - t0, 1)})
+                      'bystander_scenarios': stats['bystander_scenarios'], 'concurrent_identity_runs': stats.get('conc_identity_runs'), 'bystander_s': round(_t.time() - t0, 1)})
     witnesses(res)
     return res
 
